@@ -799,36 +799,37 @@ fn run_graph_prop(args: &Args, rep: &mut Reporter) -> bool {
     let mut ops: BTreeSet<&'static str> = BTreeSet::new();
     let salt = args.seed;
 
-    // ---- bounded-exhaustive tiny graphs -------------------------------------------------------
+    // ---- bounded-exhaustive tiny graphs (texts collected here, judged by the worker pool below) ----------
     let mut exhaustive = false;
+    let mut tiny: Vec<String> = vec![];
     if args.tier != Tier::Miri {
-        let mut col = Col::default();
         // complete for k <= 4 in both tiers; thorough adds a 1-in-4 sample of the 117 450 graphs with k = 5
         let kmax = if args.tier == Tier::Thorough { 5 } else { 4 };
         let mut rng = args.rng().fork(0x7177);
         for k in 1..=kmax {
-            let mut count = 0u64;
+            let before = tiny.len();
             pgen::tiny_enumerate(k, &mut |labels, edges| {
                 if k > 4 && !rng.chance(1, 4) {
                     return;
                 }
-                count += 1;
-                f(&mut col, "tiny", &pgen::tiny_text(labels, edges), None, salt);
+                tiny.push(pgen::tiny_text(labels, edges));
             });
-            col.count_n(&format!("tiny_graphs_k{k}"), count);
+            rep.count_n(&format!("tiny_graphs_k{k}"), (tiny.len() - before) as u64);
         }
         exhaustive = true;
         rep.extra("tiny_family", json!({"alphabet": pgen::TINY_ALPHABET.iter().map(|x| x.0).collect::<Vec<_>>(), "complete_up_to_k": 4, "k5": if kmax == 5 { "sampled 1/4" } else { "not run" }}));
-        col.merge_into(rep, &mut BTreeSet::new());
     }
 
-    // ---- random programs (parallel workers, deterministic chunking) ----------------------------------
+    // ---- all programs through parallel workers (deterministic chunking, merged in chunk order) ----------
     let chunk = 200usize;
-    let nchunks = n.div_ceil(chunk);
+    let nt = tiny.len();
+    let total = nt + n;
+    let nchunks = total.div_ceil(chunk);
     let next = AtomicUsize::new(0);
     let results: Mutex<BTreeMap<usize, Col>> = Mutex::new(BTreeMap::new());
     let workers = std::thread::available_parallelism().map(|x| x.get()).unwrap_or(4).clamp(1, 8);
     let base = args.rng();
+    let tiny = &tiny;
     std::thread::scope(|s| {
         for _ in 0..workers {
             s.spawn(|| {
@@ -838,7 +839,12 @@ fn run_graph_prop(args: &Args, rep: &mut Reporter) -> bool {
                         break;
                     }
                     let mut col = Col::default();
-                    for i in ci * chunk..((ci + 1) * chunk).min(n) {
+                    for j in ci * chunk..((ci + 1) * chunk).min(total) {
+                        if j < nt {
+                            f(&mut col, "tiny", &tiny[j], None, salt);
+                            continue;
+                        }
+                        let i = j - nt;
                         let mut r = base.fork(0xD0F1 + i as u64);
                         let p = pgen::random_program(&mut r);
                         note_meta(&mut col, &p.meta);
